@@ -214,8 +214,10 @@ fn check(c: &Case) -> CaseResult {
                                                 mk("surround-circle-centre", format!("{doc}\nexpected centre ({}, {}), observed ({cx}, {cy})", target.cx(), target.cy()));
                                             } else if *r < hd - tol {
                                                 mk("surround-circle-does-not-enclose", format!("{doc}\nbox {target:?} has half-diagonal {hd}, r = {r}"));
-                                            } else if *r > hd_sq + tol {
-                                                mk("surround-circle-too-large", format!("{doc}\nr = {r} exceeds the half-diagonal of the enclosing square {hd_sq}"));
+                                            } else if *r > hd + tol {
+                                                // ("circumscribes": the circle goes through the corners of the box)
+                                                let _ = hd_sq;
+                                                mk("surround-circle-too-large", format!("{doc}\nr = {r} exceeds the half-diagonal {hd} of the box: the circle does not circumscribe it"));
                                             }
                                         }
                                         Observed::Ellipse { cx, cy, rx, ry } => {
@@ -349,7 +351,7 @@ pub fn run(tier: Tier) -> i32 {
             }
         }
     }
-    rep.set("rule", json!("Ordered lists of 1-3 distinct references (thorough tier: also every set of 4, ascending and descending) from 11 elements with known shapes (five rects: overlapping, nested, disjoint, negative/fractional; circle, ellipse, line, group, a previous surround element, a previous inside element) x container {rect, circle, ellipse} x {surround, inside} x 10 margin forms (none, 1-4 values, mixed separators, percent, percent+absolute, negative, zero). Oracle from the references' known geometry: surround rect = union grown by margin exactly; circle/ellipse centred on that box and enclosing its corners (ellipse: corners not outside the curve; circle: radius between the half-diagonal and that of the enclosing square); percent margins only required to enclose. inside: rect among rect references = intersection shrunk by margin exactly; every boundary sample point of the result lies within every listed element's own area and within the intersection box shrunk by absolute margins; an empty intersection must not yield a positioned element. surround/inside/margin absent from the output. Non-trivial = Ok with observable geometry and all clauses satisfied."));
+    rep.set("rule", json!("Ordered lists of 1-3 distinct references (thorough tier: also every set of 4, ascending and descending) from 11 elements with known shapes (five rects: overlapping, nested, disjoint, negative/fractional; circle, ellipse, line, group, a previous surround element, a previous inside element) x container {rect, circle, ellipse} x {surround, inside} x 10 margin forms (none, 1-4 values, mixed separators, percent, percent+absolute, negative, zero). Oracle from the references' known geometry: surround rect = union grown by margin exactly; circle/ellipse centred on that box and enclosing its corners (ellipse: corners not outside the curve; circle: radius = the half-diagonal of the box); percent margins only required to enclose. inside: rect among rect references = intersection shrunk by margin exactly; every boundary sample point of the result lies within every listed element's own area and within the intersection box shrunk by absolute margins; an empty intersection must not yield a positioned element. surround/inside/margin absent from the output. Non-trivial = Ok with observable geometry and all clauses satisfied."));
     rep.set("also", json!("Also: margin without surround / inside (attribute, through <defaults>, on a circle) never reaches the output; '^' in a reference list together with a forward reference. Second review round: references carrying translate / matrix / rotate(90) / scale transforms (rect, circle, ellipse; surround and inside), the attributes on elements they do not place (g, symbol, a, switch, defs, clipPath, root svg, text with children, tspan, foreignObject, image/line/text), a <text> reference moved by text-loc."));
     let st = run_space(cases.len(), |i| check(&cases[i]));
     let ms = margins();
@@ -383,6 +385,11 @@ pub fn run(tier: Tier) -> i32 {
         ("own-transform/surround", r##"<svg><rect id="a" wh="10"/><rect id="x" surround="#a" transform="translate(50 0)"/></svg>"##, Some((-50., 0., -40., 10.))),
         ("own-transform/scaled", r##"<svg><rect id="a" xy="10 20" wh="10"/><circle id="x" surround="#a" transform="translate(4 2) scale(2)"/></svg>"##, Some((1.964, 7.964, 9.036, 15.036))),
         ("own-transform/inside", r##"<svg><rect id="c" wh="10"/><rect id="x" inside="#c" transform="translate(100 0)"/></svg>"##, Some((-100., 0., -90., 10.))),
+        // fifth review round
+        ("text-ref/with-child-element", r##"<svg><text id="t" xy="20 20"><tspan>a</tspan></text><rect id="x" surround="#t" margin="0.5"/></svg>"##, Some((19.5, 19.5, 20.5, 20.5))),
+        ("text-ref/with-child-element-relative", r##"<svg><rect id="a" xy="10 20" wh="30 40"/><text id="t" xy="#a@br"><tspan>a</tspan></text><rect id="x" surround="#t" margin="1"/></svg>"##, Some((39., 59., 41., 61.))),
+        ("nested-svg-ref/offset-without-size", r##"<svg><svg id="n" x="30" y="5"><rect wh="40 50"/></svg><rect id="x" surround="#n"/></svg>"##, Some((30., 5., 70., 55.))),
+        ("circumscribed-circle/non-square", r##"<svg><rect id="a" xy="10 20" wh="20 10"/><circle id="x" surround="#a"/></svg>"##, Some((8.82, 13.82, 31.18, 36.18))),
         ("text-ref/text-loc", r##"<svg><text id="t" xy="20 20" text-loc="tl">hi</text><rect id="x" surround="#t" margin="0.5"/></svg>"##, Some((18.5, 18.5, 19.5, 19.5))),
         ("text-ref/plain", r##"<svg><text id="t" xy="20 20">hi</text><rect id="x" surround="#t" margin="2 1"/></svg>"##, Some((19., 18., 21., 22.))),
         ("prev-after-deferred/surround", r##"<svg><rect id="a" wh="10"/><rect id="x" surround="^ #z"/><rect id="z" xy="20" wh="3"/></svg>"##, Some((0., 0., 23., 23.))),
